@@ -71,6 +71,9 @@ def run_sequence(cfg, seq, check_bound=True):
     for step, (dt, addr, cmd) in enumerate(seq):
         now[0] += dt
         t = now[0]
+        if cmd == "CLEANUP":
+            rl.cleanup()  # what web.start_client does whenever any connection ends
+            continue
         limited = rl.is_limited(addr, [cmd])
         scopes = applicable(cfg, addr, cmd)
         if limited:
@@ -195,10 +198,12 @@ def st_long(draw):
         step = draw(st.sampled_from([0.25, 0.5, 1, 2]))
         a = draw(st.sampled_from(addrs))
         seq = [(step, a, "EVENT")] * n
+        for i in draw(st.lists(st.integers(0, n - 1), max_size=6)):
+            seq[i] = (draw(st.sampled_from([0.125, 0.25, 0.5])), a, "CLEANUP")  # another connection closes meanwhile
     else:
         for _ in range(n):
             seq.append((draw(st.sampled_from([0, 0, 0.125, 0.5, 1, 1, 2, 30, 61, 3601])),
-                        draw(st.sampled_from(addrs)), draw(st.sampled_from(["EVENT", "EVENT", "REQ"]))))
+                        draw(st.sampled_from(addrs)), draw(st.sampled_from(["EVENT", "EVENT", "EVENT", "REQ", "CLEANUP"]))))
     return {"cfg": cfg, "seq": [list(x) for x in seq]}
 
 
